@@ -4,8 +4,11 @@ import (
 	"fmt"
 	"os"
 	"path/filepath"
+	"runtime"
 	"strconv"
+	"sync/atomic"
 	"testing"
+	"time"
 )
 
 func envInt(name string, def int64) int64 {
@@ -49,12 +52,42 @@ func TestBatcher(t *testing.T) {
 	}
 }
 
+var currentLogger atomic.Value
+
+// runOne runs one scenario under a real-time watchdog: goroutines blocked on a
+// mutex are not "durably blocked" for synctest, so a genuine deadlock freezes the
+// bubble; the watchdog records it in the history ("hang") and ends the process
+// with status 3 so that the caller can carry on with the next scenario.
 func runOne(t *testing.T, sc *Scenario, path string) {
 	f, err := os.Create(path)
 	if err != nil {
 		t.Fatal(err)
 	}
 	defer f.Close()
+	limit := time.Duration(envInt("VERIF_WATCHDOG_S", 25)) * time.Second
+	wd := time.AfterFunc(limit, func() {
+		if lg, ok := currentLogger.Load().(*Logger); ok && lg != nil {
+			if lg.mu.TryLock() {
+				lg.w.Flush()
+			}
+		}
+		fmt.Fprintf(f, "hang\n")
+		buf := make([]byte, 1<<20)
+		n := runtime.Stack(buf, true)
+		os.WriteFile(path+".stacks", buf[:n], 0o644)
+		f.Sync()
+		os.Exit(3)
+	})
+	defer wd.Stop()
+	// a bubble whose goroutines stay blocked for ever (callers blocked on a buffer that
+	// is never shut down, batch goroutines blocked on a drained slot channel) ends in a
+	// synctest panic; the history is complete by then (its "end" line says how many
+	// Enqueue calls never returned)
+	defer func() {
+		if e := recover(); e != nil {
+			fmt.Fprintf(f, "bubble-panic %v\n", e)
+		}
+	}()
 	if sc.Gen == 1 {
 		RunBatcherV1(t, sc, f)
 	} else {
